@@ -336,6 +336,16 @@ class Runner:
             got_const = bool(numpoly.isconstant(p))
             if got_const != is_const:
                 self.violate("isconstant", "isconstant", sid, f"[{tag}] isconstant={got_const} for elements {els[:3]}")
+            # the same question about the raw structured storage (a legal poly-like: aspolynomial turns it back)
+            for label, raw in (("values", p.values), ("values.copy()", numpy.array(p.values))):
+                try:
+                    got_raw = bool(numpoly.isconstant(raw))
+                except Exception as exc:  # noqa: BLE001
+                    self.violate("isconstant", "isconstant", sid, f"[{tag}] isconstant({label}) raised {type(exc).__name__}: {exc}", {"input": "raw"})
+                    break
+                if got_raw != is_const:
+                    self.violate("isconstant", "isconstant", sid, f"[{tag}] isconstant({label})={got_raw} for elements {els[:3]}", {"input": "raw"})
+                    break
             try:
                 arr = numpoly.tonumpy(p)
                 raised = False
